@@ -105,6 +105,19 @@ func c15Run(c *core.Ctx) {
 			}
 		}
 	}
+	// reference instants finer than a millisecond and far apart: the slope is a fraction of two large coprime numbers of
+	// nanoseconds (no cancellation helps an implementation that works in integers)
+	for _, a1 := range []int64{0, 1, 999999937} {
+		for _, span := range []int64{3*sec + 1, 3000000007001, hour + 1, 12*hour + 999983} {
+			for _, off := range []int64{0, 1, -999} {
+				for _, delta := range []int64{1, 1001, -1, 999999937, -span / 3} {
+					a2, d1 := a1+span, a1+off
+					d2 := d1 + span + delta
+					quads = append(quads, [4]int64{a1, d1, a2, d2}, [4]int64{a2, d2, a1, d1})
+				}
+			}
+		}
+	}
 	lists := []lm.List{}
 	for i, cs := range cues {
 		l := lm.List{{S: cs.S, E: cs.E, T: "x", U: 0}}
@@ -189,7 +202,7 @@ func init() {
 		ID: "C15", Level: "model_checking",
 		Rule: "states = cue lists with boundaries from a fixed set in [0,24h]; transitions = the real ApplyLinearCorrection for every reference quadruple of the scope, each boundary compared with the exact big-rational value of d1+(t-a1)(d2-d1)/(a2-a1) to within 1us, plus length scaling (+-2us), order preservation and untouched content; non-trivial = the map is not the identity",
 		Scope: map[core.Tier]string{
-			core.Quick:    "66 cues over boundaries {0,1ms,1s,2s..5s,59.999s,1h,12h,24h} (1-3 cues per list) x 672 quadruples: slopes {1/2,1,3/2,2,25/23.976,23.976/25,30/29.97} x a1 in {0,1s,10min,1h} x span scales {1ms,1s,150s} x offsets {0,+-1s,+1h} x both orders of the reference points",
+			core.Quick:    "66 cues over boundaries {0,1ms,1s,2s..5s,59.999s,1h,12h,24h} (1-3 cues per list) x 672 quadruples: slopes {1/2,1,3/2,2,25/23.976,23.976/25,30/29.97} x a1 in {0,1s,10min,1h} x span scales {1ms,1s,150s} x offsets {0,+-1s,+1h} x both orders of the reference points; plus 360 quadruples whose reference instants are finer than a millisecond and up to 12 h apart (coprime numbers of nanoseconds)",
 			core.Thorough: "plus boundaries 1ns, 999ms, 1.5s, 23:59:59.999, 10h-1ns, k*1h-1ms and an irregular instant per hour (k=1..24): all cues over 64 boundaries",
 		},
 		Assumptions: []string{"Go toolchain and standard library, math/big"},
